@@ -8,3 +8,6 @@ func verifObserveTreeShaking(c *linkerContext) {}
 
 // No-op counterpart of the chunk order observation hook.
 func verifObserveChunkOrder(c *linkerContext) {}
+
+// No-op counterpart of the cross-chunk dependency observation hook.
+func verifObserveCrossChunk(c *linkerContext) {}
